@@ -92,7 +92,8 @@ chk("C18", "translation_validation",
     "probit and confidence_interval executed from source over the reals: z3 NRA decides lower<=upper, radicand>=0, equality "
     "with the textbook Agresti-Coull/Wald formulas over the module's own z, narrowing in n and widening in z (root-free on "
     "squares, portfolio of strategies), probit symmetry/sign/monotonicity from hand-instantiated log axioms, and the method dispatch.",
-    "Exact reals instead of binary64; log uninterpreted with three axioms; 'z >= true normal quantile' is claimed only through "
+    "Exact reals (a bit-precise binary64 run of the interval code is used for bug hunting only: negative radicands at the corners "
+    "p in {0,1}); log uninterpreted with three axioms; 'z >= true normal quantile' is claimed only through "
     "z >= sqrt(pi/8)*|log(a/(1-a))| (solver) plus the cited fact that this logit bound dominates the normal quantile.",
     "symbolic execution (pysym, exact-real mode) + z3 NRA/nlsat portfolio", "DESIGN.md section 6 C18")
 
